@@ -285,7 +285,43 @@ fn run_typed<V: Val>(ctx: &mut Ctx, idx: u64, rng: &mut Rng, coll: &Coll) {
     ctx.rep.note("workloads", coll.workload);
 }
 
+/// Documented size limit of the byte-wise automaton: 2^24-1 patterns build, 2^24 are rejected
+/// with the documented error (never a panic, never a silently wrong automaton).
+fn limit_probe(ctx: &mut Ctx, idx: u64) {
+    use daachorse::DoubleArrayAhoCorasickBuilder;
+    ctx.rep.note("workloads", "W13-documented-limit-probe");
+    for (n, want_ok) in [((1usize << 24) - 1, true), (1usize << 24, false)] {
+        ctx.rep.evaluations += 1;
+        let it = (0..n as u32).map(|i| ([(i >> 16) as u8, (i >> 8) as u8, i as u8], 0u8));
+        let kind = crate::pma::KINDS[(ctx.seed as usize + n) % 3];
+        let r = DoubleArrayAhoCorasickBuilder::new().match_kind(kind).build_with_values::<_, _, u8>(it);
+        let outcome = match &r {
+            Ok(_) => "Ok".to_string(),
+            Err(e) => format!("Err({:?})", err_kind(e)),
+        };
+        ctx.rep.count("limit_probe_builds", 1);
+        let ok = if want_ok { r.is_ok() } else { matches!(&r, Err(e) if err_kind(e) == ErrKind::AutomatonScale) };
+        if !ok {
+            ctx.rep.violation(
+                "acceptance",
+                format!(
+                    "byte-wise build_with_values of {n} distinct 3-byte patterns ({}) returned {outcome}; the documented limit is 2^24-1 patterns: {}",
+                    kind_name(kind),
+                    if want_ok { "this collection is within the limit and must build" } else { "this collection exceeds it and must be rejected with the documented scale error" }
+                ),
+                idx,
+                J::obj().set("num_patterns", J::us(n)).set("result", J::s(&outcome)),
+            );
+        }
+    }
+    ctx.rep.nontrivial.insert(0x11a1_7010);
+}
+
 pub fn run_case(ctx: &mut Ctx, idx: u64) {
+    if idx == 84 + SWEEP_LEN as u64 && ctx.mode == Mode::Native {
+        limit_probe(ctx, idx);
+        return;
+    }
     let mut rng = Rng::for_case(ctx.seed, "C10", idx);
     let mut coll = gen_coll(ctx, &mut rng, idx);
     // index-conversion boundary for narrow types: exactly max+1 (valid) or max+2 (invalid) patterns
